@@ -65,6 +65,8 @@ def matIn (v : Mat Rat) (z : Mat Itv) : Bool :=
 
 def opsExpr (op : String) (ins outs : List String) : Option String :=
   match op, ins, outs with
+  | "evalfork", [what], [res] =>
+    pure (if res == "EXIT0" then s!"ok evaluated-{what}" else s!"FAIL evaluation-of-{what}-ends-with-{res}")
   | "evalpt", [dag, pt], [z] => do
     let (funs, main) ← parseProgram dag
     let p ← parsePoint pt
